@@ -878,6 +878,10 @@ class C04:
                 t = (self.typed.type_of(mod, arg) or "").replace("builtins.", "")
                 if not t or t.startswith("Any") or t == "typing.Any":
                     continue
+                # `str | Any` (what re.split / m.groups() elements are typed as): the Any part is unknown, the known part is str
+                parts = [x.strip() for x in (t[6:-1].split(",") if t.startswith("Union[") else t.split("|"))]
+                if len(parts) > 1 and all(x in ("str", "Any", "typing.Any") for x in parts):
+                    continue
                 n += 1
                 ctx.ob("T12", f"{q}/{norm(c.func)[:30]}({norm(arg)[:30]})", t in ("str", "LiteralString") or t.startswith("Literal["),
                        f"the subject `{norm(arg)[:40]}` of a regex call has static type `{t[:70]}`; anything but str (a Token is a UserString, a missing value is None) "
@@ -1170,7 +1174,7 @@ def run(ctx: Ctx):
     ctx.guard(C.t10_encoding)
     ctx.guard(C.t11_foreign_parsers)
     ctx.guard(C.t12_regex_subjects)
-    ctx.floor("T10", 3)
+    ctx.floor("T10", 1)  # the encoding of the document text itself; the others encode patterns / cache keys
     ctx.floor("T1", 4)
     ctx.floor("T2", 8)
     ctx.floor("T3", 5)
